@@ -22,9 +22,11 @@ import (
 	"strconv"
 	"strings"
 	"testing"
+	"time"
 
 	"github.com/EliCDavis/polyform/formats/obj"
 	"github.com/EliCDavis/polyform/modeling"
+	"github.com/EliCDavis/vector/vector3"
 	"pgregory.net/rapid"
 
 	"verifharness/internal/gen"
@@ -1209,9 +1211,70 @@ func loadedString(ms []obj.ObjMesh) string {
 
 // ----------------------------------------------------------------
 
+// ---------------------------------------------------------------- huge mesh (vertex numbers beyond 2^24)
+
+// HugeCase: one triangle mesh with N > 2^24 vertices, each at its own float32-exact position,
+// whose triangles name vertex numbers a float32 cannot hold; written and read back.
+type HugeCase struct {
+	N   int
+	Idx []int
+}
+
+func hugeCases() []HugeCase {
+	const b = 1 << 24
+	n := b + 8
+	return []HugeCase{{N: n, Idx: []int{0, 1, n - 1, b + 1, b - 1, b + 3, b + 5, b + 2, 5, n - 2, b + 7, b}}}
+}
+
+func hugePos(i int) vector3.Float64 { return vector3.New(float64(i%4096), float64(i/4096), 0.5) }
+
+func runHuge(c HugeCase, o *vh.Obs) *vh.Failure {
+	if c.N < 3 || c.N > 1<<25 || len(c.Idx)%3 != 0 {
+		o.Class("out-of-domain")
+		return nil
+	}
+	o.Class("huge/vertex-numbers-beyond-2^24")
+	o.NonTrivial()
+	pos := make([]vector3.Float64, c.N)
+	for i := range pos {
+		pos[i] = hugePos(i)
+	}
+	src := modeling.NewTriangleMesh(c.Idx).SetFloat3Attribute(modeling.PositionAttribute, pos)
+	buf := &bytes.Buffer{}
+	if err := obj.WriteMesh(src, "", buf); err != nil {
+		return vh.Failf("huge/write-error", "writing %d vertices: %v", c.N, err)
+	}
+	pos, src = nil, modeling.Mesh{}
+	back, _, err := obj.ReadMesh(bytes.NewReader(buf.Bytes()))
+	if err != nil {
+		return vh.Failf("huge/read-error", "reading back %d vertices (%d bytes): %v", c.N, buf.Len(), err)
+	}
+	if len(back) != 1 {
+		return vh.Failf("huge/mesh-count", "one mesh written, %d read", len(back))
+	}
+	m := back[0].Mesh
+	if m.Topology() != modeling.TriangleTopology || m.PrimitiveCount() != len(c.Idx)/3 || !m.HasFloat3Attribute(modeling.PositionAttribute) {
+		return vh.Failf("huge/primitives", "wrote %d triangles, read topology %v with %d primitives", len(c.Idx)/3, m.Topology(), m.PrimitiveCount())
+	}
+	got := m.Float3Attribute(modeling.PositionAttribute)
+	ind := m.Indices()
+	for k, want := range c.Idx {
+		gi := ind.At(k)
+		if gi < 0 || gi >= got.Len() {
+			return vh.Failf("huge/index-out-of-range", "corner %d references vertex %d of %d", k, gi, got.Len())
+		}
+		if got.At(gi) != hugePos(want) {
+			return vh.Failf("huge/corner-value", "corner %d was written with vertex %d at %v and comes back at %v", k, want, hugePos(want), got.At(gi))
+		}
+	}
+	return nil
+}
+
 func TestC05(t *testing.T) {
 	vh.Drive(t, vh.Spec[WRCase]{Name: "write-read", Quick: 80000, Thorough: 2400000, Gen: genWR, Run: runWR})
 	vh.Drive(t, vh.Spec[RWCase]{Name: "read-write", Quick: 100000, Thorough: 3000000, Gen: genRW, Run: runRW})
+	// ~2.5 GB and ~10 s: a single case
+	vh.Enumerate(t, vh.Spec[HugeCase]{Name: "huge-mesh", Run: runHuge, Deadline: 10 * time.Minute}, hugeCases())
 }
 
 func FuzzC05ReadWrite(f *testing.F) {
